@@ -122,7 +122,7 @@ func runDialled(c DialledCase) *ev.Failure {
 
 var dialledProp = ev.Register(&ev.Prop[DialledCase]{
 	ID: "C15", Name: "connections-made-with-newconn",
-	Rule: "two in-memory connections made with diam.NewConn on one handler (a ServeMux answering everything, or an sm.StateMachine), a healthy peer (CER, 0..2 DWRs before and 1..2 after) and a faulty one that sends undecodable input (7 variants) after its CER. " +
+	Rule: "two in-memory connections made with diam.NewConn on one handler (a ServeMux answering everything, or an sm.StateMachine), a healthy peer (CER, 0..2 DWRs before and 1..2 after) and a faulty one that sends undecodable input (9 variants) after its CER. " +
 		"Demanded: the faulty transport is closed, the input is offered to the handler's ErrorReports with that connection, the healthy peer's requests are all answered. Every case is non-trivial",
 	Gen: func(t *rapid.T) DialledCase {
 		return DialledCase{Variant: rapid.IntRange(0, garbageVariants-1).Draw(t, "variant"), Handler: rapid.SampledFrom([]string{"mux", "sm"}).Draw(t, "handler"),
